@@ -258,8 +258,8 @@ static int reg_all() {
 	           "instance = vec<L,float|double,Q>; every case runs abs sign floor ceil trunc round roundEven fract isnan isinf min max clamp step mix(float) mix(bool) smoothstep mod fma modf frexp ldexp and the four bit casts "
 	           "in every documented overload shape; operands: special lattice + random bit patterns per documented domain (NaN only for abs sign isnan isinf bit casts mix(bool); lo <= hi; edge0 < edge1; y != 0; "
 	           "|x| < 2^31 for roundEven; finite x for frexp/ldexp), x == edge / equal operands planted; non-trivial = L >= 2, pairwise distinct components with pairwise distinct scalar results (per-function class counters)");
-	add_sweep("common/float-unary-sweep", prop_sweep, 1ULL << 32, 256, 1,
-	          "every float bit pattern u (quick: one per block of 256) as lane 0 of a vec4 (other lanes -x, bits^0x00400001, next pattern) through abs sign floor ceil trunc round roundEven(|x|<2^31) fract isnan isinf "
+	add_sweep("common/float-unary-sweep", prop_sweep, 1ULL << 32, 256, 8,
+	          "every float bit pattern u (quick: one per block of 256, thorough: one per block of 8) as lane 0 of a vec4 (other lanes -x, bits^0x00400001, next pattern) through abs sign floor ceil trunc round roundEven(|x|<2^31) fract isnan isinf "
 	          "floatBitsToInt floatBitsToUint radians degrees sqrt inversesqrt; non-trivial = lane 0 is not a NaN");
 	return 0;
 }
